@@ -158,6 +158,11 @@ class LegacyVarX(Variable):
     mapper_method = "map_legacy_var_x"
 
 
+class LegacyVarX2(LegacyVarX):
+    """a further subclass that only inherits the init-args hooks of its legacy parent"""
+    mapper_method = "map_legacy_var_x2"
+
+
 class PureLegacy(Expression):
     """legacy subclass that still uses the init-args protocol"""
     init_arg_names = ("u", "v")
@@ -177,10 +182,11 @@ USER_CLASSES = {"UTag": UTag, "UTag3": UTag3, "UNamed": UNamed, "UHashless": UHa
                 "UHashInherit": UHashInherit, "UInterval": UInterval,
                 "UDerivedMid": UDerivedMid, "UCse": UCse, "SubCse": SubCse,
                 "LegacyVar": LegacyVar,
-                "LegacyVarX": LegacyVarX, "PureLegacy": PureLegacy}
+                "LegacyVarX": LegacyVarX, "LegacyVarX2": LegacyVarX2, "PureLegacy": PureLegacy}
 USER_FIELDS = {"UTag": ["e", "s"], "UTag3": ["e", "s", "any"], "UNamed": ["s", "ci"],
                "UHashless": ["s", "any"], "UDerived": ["e"], "SubVariable": ["s"],
                "SubCall": ["e", "E0"], "UHashInherit": ["s", "s"],
                "UInterval": ["e", "any"], "UDerivedMid": ["e", "any"],
                "UCse": ["e", "px", "sc", "s"], "SubCse": ["e", "px", "sc"],
-               "LegacyVar": ["s"], "LegacyVarX": ["s", "any"], "PureLegacy": ["any", "any"]}
+               "LegacyVar": ["s"], "LegacyVarX": ["s", "any"], "LegacyVarX2": ["s", "any"],
+               "PureLegacy": ["any", "any"]}
